@@ -113,3 +113,19 @@ def parse_cost(c):
     for k, v in c.items():
         out[k] = math.inf if v in ("inf", "Infinity") else v
     return out
+
+
+def known_mechanisms(prop):
+    """Mechanism-keyed known findings listed for a property in known_findings.txt (token mechanism=<name>)."""
+    here = os.path.dirname(os.path.dirname(os.path.abspath(__file__)))
+    out = set()
+    try:
+        for line in open(os.path.join(here, "known_findings.txt")):
+            if not line.startswith("known:"):
+                continue
+            fields = dict(tok.split("=", 1) for tok in line.split()[1:] if "=" in tok)
+            if prop in fields.get("property", "").split(",") and "mechanism" in fields:
+                out.add(fields["mechanism"])
+    except OSError:
+        pass
+    return out
